@@ -30,6 +30,9 @@ UNIT_CONV = [                 # (factor, from, to)
 KIND_CONV = [(CC2FWHM, "sigma", "fwhm"), (1 / CC2FWHM, "fwhm", "sigma")]
 WIDTH_KINDS = {"sigma", "fwhm"}
 POS_KINDS = {"lon", "lat", "colat"}
+# which of the two axes of an ellipse a width describes: the first (a / sx /
+# major) or the second (b / sy / minor)
+AXIS_KINDS = {"ax1", "ax2"}
 
 
 def close(a, b):
@@ -95,15 +98,15 @@ REGION = AV(num="obj", cls=PKG + ".regions.Region")
 # contracted attributes of catalogue source objects
 SRC_FIELDS = {
     "ra": LON_DEG, "dec": LAT_DEG, "err_ra": DEG, "err_dec": DEG,
-    "a": U("arcsec", "fwhm"), "b": U("arcsec", "fwhm"),
+    "a": U("arcsec", "fwhm ax1"), "b": U("arcsec", "fwhm ax2"),
     "err_a": U("arcsec"), "err_b": U("arcsec"),
-    "psf_a": U("arcsec", "fwhm"), "psf_b": U("arcsec", "fwhm"),
+    "psf_a": U("arcsec", "fwhm ax1"), "psf_b": U("arcsec", "fwhm ax2"),
     "pa": DEG, "err_pa": DEG, "psf_pa": DEG,
 }
 LMFIT_SUFFIX = {
     "xo": U(idx=Idx("row", 0, ("rel", "island"))),
     "yo": U(idx=Idx("col", 0, ("rel", "island"))),
-    "sx": U("pix", "sigma"), "sy": U("pix", "sigma"),
+    "sx": U("pix", "sigma ax1"), "sy": U("pix", "sigma ax2"),
     "theta": U("deg"),
 }
 
@@ -137,31 +140,34 @@ CONTRACTS = {
                             ret=lambda a: AV(num="obj", elts=(
                                 LON_DEG, LAT_DEG, DEG, DEG))),
     W + "sky2pix_ellipse": dict(
-        params=dict(pos=SKYPOS, a=DEG, b=DEG, pa=DEG),
+        params=dict(pos=SKYPOS, a=U("deg", "ax1"), b=U("deg", "ax2"),
+                    pa=DEG),
         ret=lambda a: AV(num="obj", elts=(
             ROW1, COL1, U("pix", a.get("a", TOP).kind),
             U("pix", a.get("b", TOP).kind), DEG))),
     W + "pix2sky_ellipse": dict(
-        params=dict(pixel=PIX1, sx=U("pix"), sy=U("pix"), theta=DEG),
+        params=dict(pixel=PIX1, sx=U("pix", "ax1"), sy=U("pix", "ax2"),
+                    theta=DEG),
         ret=lambda a: AV(num="obj", elts=(
             LON_DEG, LAT_DEG, U("deg", a.get("sx", TOP).kind),
             U("deg", a.get("sy", TOP).kind), DEG))),
     W + "get_psf_sky2sky": dict(params=dict(ra=LON_DEG, dec=LAT_DEG),
                                 ret=lambda a: AV(num="obj", elts=(
-                                    U("deg", "fwhm"), U("deg", "fwhm"),
-                                    DEG))),
+                                    U("deg", "fwhm ax1"),
+                                    U("deg", "fwhm ax2"), DEG))),
     W + "get_psf_sky2pix": dict(params=dict(ra=LON_DEG, dec=LAT_DEG),
                                 ret=lambda a: AV(num="obj", elts=(
-                                    U("pix", "fwhm"), U("pix", "fwhm"),
-                                    DEG))),
+                                    U("pix", "fwhm ax1"),
+                                    U("pix", "fwhm ax2"), DEG))),
     W + "get_psf_pix2pix": dict(params=dict(),
                                 ret=lambda a: AV(num="obj", elts=(
-                                    U("pix", "fwhm"), U("pix", "fwhm"),
-                                    DEG))),
+                                    U("pix", "fwhm ax1"),
+                                    U("pix", "fwhm ax2"), DEG))),
     W + "get_skybeam": dict(params=dict(ra=LON_DEG, dec=LAT_DEG),
                             ret=lambda a: AV(num="obj", cls="Beam",
-                                             elts=(U("deg", "fwhm"),
-                                                   U("deg", "fwhm"), DEG))),
+                                             elts=(U("deg", "fwhm ax1"),
+                                                   U("deg", "fwhm ax2"),
+                                                   DEG))),
     W + "get_beamarea_pix": dict(params=dict(ra=LON_DEG, dec=LAT_DEG),
                                  ret=lambda a: TOP),
     W + "get_beamarea_deg2": dict(params=dict(ra=LON_DEG, dec=LAT_DEG),
@@ -169,7 +175,8 @@ CONTRACTS = {
     W + "sky_sep": dict(params=dict(pix1=PIX1, pix2=PIX1),
                         ret=lambda a: DEG),
     PKG + ".fitting.elliptical_gaussian": dict(
-        params=dict(sx=U("pix", "sigma"), sy=U("pix", "sigma"), theta=DEG),
+        params=dict(sx=U("pix", "sigma ax1"), sy=U("pix", "sigma ax2"),
+                    theta=DEG),
         ret=lambda a: TOP),
     PKG + ".regions.Region.sky2ang": dict(
         params=dict(sky=colarray(LON_RAD, LAT_RAD)),
@@ -296,7 +303,8 @@ class UnitLib(Lib):
             return AV(num="obj", elts=(ROW0, ROW0, COL0, COL0))
         if cq == PKG + ".wcs_helpers.WCSHelper":
             if attr in ("_psf_a", "_psf_b"):
-                return U("pix", "fwhm")
+                return U("pix", "fwhm ax1" if attr == "_psf_a"
+                         else "fwhm ax2")
             if attr == "_psf_theta":
                 return DEG
             if attr == "wcs":
@@ -1056,7 +1064,11 @@ def _taint(v: AV, t):
 # --------------------------------------------------------------------------
 # contract checking observer
 # --------------------------------------------------------------------------
-def facet_mismatch(want: AV, got: AV, idx=True, other=True):
+# functions whose purpose is to re-label the two axes of a source (a >= b)
+AXIS_RELABEL = {PKG + ".source_finder.fix_shape"}
+
+
+def facet_mismatch(want: AV, got: AV, idx=True, other=True, axes=True):
     """list of definite contradictions between a contracted and an actual
     value (only facets known on both sides)"""
     out = []
@@ -1064,7 +1076,7 @@ def facet_mismatch(want: AV, got: AV, idx=True, other=True):
         gelts = got.elts
         if gelts is not None and len(gelts) == len(want.elts):
             for i, (w, g) in enumerate(zip(want.elts, gelts)):
-                for m in facet_mismatch(w, g, idx, other):
+                for m in facet_mismatch(w, g, idx, other, axes):
                     out.append("element %d: %s" % (i, m))
         return out
     if not other:
@@ -1074,7 +1086,8 @@ def facet_mismatch(want: AV, got: AV, idx=True, other=True):
         out.append("unit %s where %s is required" %
                    (sorted(got.unit), sorted(want.unit)))
     if other and want.kind is not None and got.kind is not None:
-        for fam in (WIDTH_KINDS, POS_KINDS):
+        for fam in (WIDTH_KINDS, POS_KINDS) + ((AXIS_KINDS,) if axes
+                                                else ()):
             w, g = want.kind & fam, got.kind & fam
             if w and g and not (w & g):
                 out.append("%s where %s is required" % (sorted(g),
@@ -1320,15 +1333,17 @@ class ContractObs(Observer):
         for (obj, attr), (stmt, val, want) in getattr(
                 it, "_field_stores", {}).items():
             live = fe.get("%s.%s" % (obj, attr), val)
-            ms = facet_mismatch(want, live)
+            ax = it.fi.qualname not in AXIS_RELABEL
+            ms = facet_mismatch(want, live, axes=ax)
             if not ms:
                 continue
             # blame the store(s) whose own value contradicts the contract
             culprits = [(s2, v2) for s2, v2 in
                         it._field_all.get((obj, attr), [])
-                        if facet_mismatch(want, v2)] or [(stmt, live)]
+                        if facet_mismatch(want, v2, axes=ax)] or \
+                [(stmt, live)]
             for s2, v2 in culprits:
-                for m in facet_mismatch(want, v2) or ms:
+                for m in facet_mismatch(want, v2, axes=ax) or ms:
                     self.add(it, s2, "store",
                              "field %s.%s: %s" % (obj, attr, m),
                              {"value": v2.short(),
